@@ -231,9 +231,11 @@ def check(case):
                 winteg = M.get(name)(sys_dim=(Hm.n,), dtype=dt, rtol=1e-13, atol=1e-13)
                 wrhs = DiffRHS(Hm.rhs)
 
+                y_start = y0.astype(dt).copy()
+
                 def warm_up():
-                    _, (dT0, dY0) = winteg(wrhs, dt(-h), y0.astype(dt), {}, dt(h))
-                    return dt(-h) + dT0, (y0.astype(dt) + np.asarray(dY0, dtype=dt))
+                    _, (dT0, dY0) = winteg(wrhs, dt(-h), y_start, {}, dt(h))
+                    return dt(-h) + dT0, (y_start + np.asarray(dY0, dtype=dt))
                 t_reached, y_reached = warm_up()
 
                 def step(yy):
